@@ -26,7 +26,8 @@ pub enum E {
 pub const ZMAX: u8 = 5; // tiles live at levels 0..=ZMAX; geo boxes are passed to the model for levels 0..=ZMAX
 
 fn payload(id: u64) -> Vec<u8> { let mut v = b"tile".to_vec(); v.extend_from_slice(&id.to_le_bytes()); v }
-fn payload_id(b: &Blob) -> Option<u64> {
+fn payload_id(b: &Blob, comp: &TileCompression) -> Option<u64> {
+	let b = versatiles_core::utils::decompress(b.clone(), comp).ok()?;
 	let s = b.as_slice();
 	if s.len() == 12 && &s[0..4] == b"tile" { Some(u64::from_le_bytes(s[4..12].try_into().unwrap())) } else { None }
 }
@@ -46,7 +47,10 @@ pub fn to_vpl(e: &E) -> BoxFuture<'_, Result<String>> {
 		Ok(match e {
 			E::Leaf(tiles) => {
 				let name = fresh("m");
-				let src = MemSource::new(&name, tiles.iter().map(|(c, id)| (*c, payload(*id))).collect(), TileFormat::BIN, TileCompression::Uncompressed).with_yields(tiles.len() % 3); // some leaves suspend before they answer, as readers doing I/O do
+				// leaves store their tiles uncompressed, gzip'ed or brotli'ed (a function of the content, so that rebuilding an expression
+				// gives the same source); every answer is decoded with the compression the queried operation declares
+				let comp = [TileCompression::Uncompressed, TileCompression::Gzip, TileCompression::Uncompressed, TileCompression::Brotli][(tiles.len() + tiles.iter().map(|t| t.1 as usize % 7).sum::<usize>()) % 4];
+				let src = MemSource::new(&name, tiles.iter().map(|(c, id)| (*c, versatiles_core::utils::compress(Blob::from(payload(*id)), &comp).unwrap().into_vec())).collect(), TileFormat::BIN, comp).with_yields(tiles.len() % 3); // some leaves suspend before they answer, as readers doing I/O do
 				// ... and some suspend while they are being opened: the earlier listed a source, the longer it takes
 				let open_yields = [3usize, 0, 2, 0, 1][tiles.len() % 5];
 				crate::memsrc::register_slow_open(&name, Box::new(src), open_yields);
@@ -144,7 +148,7 @@ pub fn run_query(rt: &tokio::runtime::Runtime, op: &dyn OperationTrait, spec: &H
 			let r = guarded(|| rt.block_on(async { op.get_tile_data(&TileCoord3 { x: *x, y: *y, z: *z }).await }));
 			let exp = spec.get(&(*z, *x, *y)).copied();
 			match r {
-				Ok(Ok(Some(b))) => { let id = payload_id(&b);
+				Ok(Ok(Some(b))) => { let id = payload_id(&b, &op.get_parameters().tile_compression);
 					Outcome { text: id.map_or("?".into(), |i| i.to_string()), spec_fail: if id == exp { None } else { Some(format!("lookup returned {id:?}, expected {exp:?}")) } } }
 				Ok(Ok(None)) => Outcome { text: "-".into(), spec_fail: if exp.is_none() { None } else { Some(format!("lookup returned nothing, expected {exp:?}")) } },
 				Ok(Err(e)) => Outcome { text: "err".into(), spec_fail: Some(format!("lookup failed: {e}")) },
@@ -156,7 +160,7 @@ pub fn run_query(rt: &tokio::runtime::Runtime, op: &dyn OperationTrait, spec: &H
 			let r = guarded(|| rt.block_on(async { op.get_tile_stream(bb).await.collect().await }));
 			match r {
 				Ok(v) => {
-					let mut items: Vec<(u8, u32, u32, Option<u64>)> = v.iter().map(|(c, bl)| (c.z, c.x, c.y, payload_id(bl))).collect();
+					let mut items: Vec<(u8, u32, u32, Option<u64>)> = v.iter().map(|(c, bl)| (c.z, c.x, c.y, payload_id(bl, &op.get_parameters().tile_compression))).collect();
 					items.sort();
 					let mut exp: Vec<(u8, u32, u32, Option<u64>)> = spec.iter().filter(|((z, x, y), _)| *z == b.level && b.contains2(&TileCoord2::new(*x, *y))).map(|((z, x, y), id)| (*z, *x, *y, Some(*id))).collect();
 					exp.sort();
@@ -334,7 +338,15 @@ fn build_args(rt: &tokio::runtime::Runtime, rng: &mut Rng, thorough: bool, specv
 			(Ok(Ok(op)), true) => {
 				// the filter must keep a non-empty tile box at every level
 				let p = &op.get_parameters().bbox_pyramid;
-				(0..=20u8).find(|z| p.get_level_bbox(*z).is_empty()).map(|z| format!("valid box maps to an empty tile box at level {z}"))
+				(0..=20u8).find(|z| p.get_level_bbox(*z).is_empty()).map(|z| format!("valid box maps to an empty tile box at level {z}")).or_else(|| {
+					// a box without extent in x that lies exactly on the edge between two tile columns keeps both columns: the guard
+					// reaches into each of them (the longitude's tile coordinate is exact in f64 for these inputs)
+					if g[0] != g[2] { return None; }
+					(1..=20u8).find_map(|z| { let u = (g[0] / 360.0 + 0.5) * (1u64 << z) as f64; let k = u as u32;
+						if u.fract() != 0.0 || k == 0 || u >= (1u64 << z) as f64 { return None; }
+						let b = p.get_level_bbox(z);
+						if b.x_min <= k - 1 && b.x_max >= k { None } else { Some(format!("longitude {} is the edge between tile columns {} and {} at level {z}; the filter keeps columns {}..={}", g[0], k - 1, k, b.x_min, b.x_max)) } })
+				})
 			}
 			(Ok(Err(_)), false) => None,
 		};
@@ -409,6 +421,50 @@ fn parse_expr(t: &mut std::collections::VecDeque<String>) -> E {
 	}
 }
 
+/// C08, the encoding side (Model/OverlayComp.v): overlays of 2..5 sources that store their tiles uncompressed, gzip'ed or
+/// brotli'ed; the compression the overlay declares, and the tile it hands out for a coordinate that some, one or none of
+/// the sources hold, decoded with that declared compression - through the lookup and through the stream.
+fn overlay_comp_lines(rt: &tokio::runtime::Runtime, rng: &mut Rng, thorough: bool, col: &mut Collector, seed: u64) {
+	let comps = [("U", TileCompression::Uncompressed), ("G", TileCompression::Gzip), ("B", TileCompression::Brotli)];
+	for i in 0..(if thorough { 600 } else { 90 }) {
+		let k = rng.range(2, 5) as usize;
+		// mostly one or two distinct compressions (so that "all equal" is frequent), sometimes anything
+		let base = rng.below(3) as usize; let other = rng.below(3) as usize;
+		let cs: Vec<usize> = (0..k).map(|j| match i % 3 { 0 => base, 1 => if rng.chance(1, 3) || j == k - 1 && i % 2 == 1 { other } else { base }, _ => rng.below(3) as usize }).collect();
+		let ts: Vec<Option<u64>> = (0..k).map(|j| if rng.chance(2, 5) { Some(70_000 + (i * 10 + j) as u64) } else { None }).collect();
+		let mut names = Vec::new();
+		for j in 0..k {
+			let name = format!("oc{i}_{j}_{seed}"); let c = comps[cs[j]].1;
+			let enc = |id: u64| versatiles_core::utils::compress(Blob::from(payload(id)), &c).unwrap().into_vec();
+			let mut tiles = vec![((4u8, j as u32, 15u32), enc(60_000 + (i * 10 + j) as u64))];
+			if let Some(id) = ts[j] { tiles.push(((2, 1, 1), enc(id))); }
+			crate::memsrc::register_slow_open(&name, Box::new(MemSource::new(&name, tiles, TileFormat::BIN, c).with_yields(j % 3)), [1usize, 0, 2][j % 3]);
+			names.push(name);
+		}
+		let vpl = format!("from_overlayed [ {} ]", names.iter().map(|n| format!("from_container filename={n}")).collect::<Vec<_>>().join(", "));
+		let toks = format!("ovl {k} {}", (0..k).map(|j| format!("{} {}", comps[cs[j]].0, ts[j].map_or("-".into(), |v| v.to_string()))).collect::<Vec<_>>().join(" "));
+		col.spec_cases += 1;
+		let op = match guarded(|| rt.block_on(factory().operation_from_vpl(&vpl))) { Ok(Ok(o)) => o, _ => { col.violation("overlay-build", &toks, &toks, "overlay of valid sources could not be built"); continue; } };
+		let declared = op.get_parameters().tile_compression;
+		let dname = comps.iter().find(|c| c.1 == declared).map_or("?", |c| c.0);
+		let show = |b: Option<&Blob>| match b { None => "-".to_string(), Some(b) => payload_id(b, &declared).map_or("?".into(), |v| v.to_string()) };
+		let l = match guarded(|| rt.block_on(op.get_tile_data(&TileCoord3 { x: 1, y: 1, z: 2 }))) { Ok(Ok(b)) => show(b.as_ref()), Ok(Err(_)) => "err".into(), Err(_) => "panic".into() };
+		let s = match guarded(|| rt.block_on(async { op.get_tile_stream(TileBBox::new(2, 0, 0, 3, 3).unwrap()).await.collect().await })) {
+			Ok(v) => { let at: Vec<&(TileCoord3, Blob)> = v.iter().filter(|(c, _)| c.x == 1 && c.y == 1).collect(); if at.len() > 1 { "twice".into() } else { show(at.first().map(|t| &t.1)) } }
+			Err(_) => "panic".into() };
+		col.out.line(&format!("{toks} => {dname} L={l} S={s}"));
+		// spec: the first listed source that has the tile
+		let exp = ts.iter().flatten().next().map_or("-".to_string(), |v| v.to_string());
+		if l != exp || s != exp { col.violation("overlay-encoding", &toks, &toks, &format!("sources (compression, tile at 2/1/1) {toks}: the overlay declares {dname}; decoded with it the lookup gives {l}, the stream gives {s}; the first source that has the tile stores payload {exp}")); }
+		// every private tile too (level 4), through the stream
+		if let Ok(v) = guarded(|| rt.block_on(async { op.get_tile_stream(TileBBox::new(4, 0, 15, 15, 15).unwrap()).await.collect().await })) {
+			let v: Vec<(TileCoord3, Blob)> = v;
+			for j in 0..k { let want = 60_000 + (i * 10 + j) as u64; let got = v.iter().find(|(c, _)| c.x == j as u32).and_then(|(_, b)| payload_id(b, &declared));
+				if got != Some(want) { col.violation("overlay-encoding", &toks, &toks, &format!("tile 4/{j}/15 of source {j} ({}) does not decode with the declared compression {dname} when streamed", comps[cs[j]].0)); break; } }
+		}
+	}
+}
+
 pub fn run(ctx: &Ctx, focus: &str) -> Result<()> {
 	let mut col = Collector::new(&ctx.out)?;
 	run_into(ctx, focus, &mut col)?;
@@ -461,6 +517,8 @@ pub fn run_into(ctx: &Ctx, focus: &str, col: &mut Collector) -> Result<()> {
 		*stats.entry("expressions".into()).or_insert(0) += 1;
 		*stats.entry(format!("spec_tiles_{}", match spec.len() { 0 => "0", 1..=9 => "1-9", 10..=99 => "10-99", _ => "100+" })).or_insert(0) += 1;
 	}
+	if focus == "c08" || focus == "c02" || focus == "pipe" { overlay_comp_lines(&rt, &mut rng, ctx.thorough, col, ctx.seed); }
+	if focus == "c09" || focus == "c06" || focus == "pipe" { crate::c15_bbox::geo_axis_lines(&mut col.out, &mut rng); }
 	if focus == "c09" || focus == "pipe" {
 		build_args(&rt, &mut rng, ctx.thorough, &mut specv, &mut stats);
 		arg_lines(&rt, &mut rng, ctx.thorough, &mut col.out, &mut specv, &mut stats);
